@@ -94,13 +94,13 @@ def intValue? (b : Nat) : Option Nat :=
       if s ≤ 52 ∧ sig % 2 ^ s = 0 then some (sig / 2 ^ s) else none
 
 /-- The concrete formatter: `lexical` with `trim_floats(true)` and `positive_exponent_break(15)` writes an
-integer-valued double below `10^15` as its digits (→ `Integer`), everything else with a `.` or an exponent
+integer-valued double below `10^16` (decimal exponent ≤ 15) as its digits (→ `Integer`), everything else with a `.` or an exponent
 (→ `Float`); with `trim_floats(false)` there is always a `.` (→ `Float`).  Checked against the real printer
 and lexer on every numeric leaf the C03 harness generates. -/
 def stdFmt : NumFmt where
   real := fun b =>
     match intValue? b with
-    | some n => if n < 10 ^ 15 then .integer n else .float b
+    | some n => if n < 10 ^ 16 then .integer n else .float b
     | none => .float b
   imag := fun b => .float b
 
